@@ -77,6 +77,12 @@ def general_case(case):
             want_l["timestamp"] = str(int(desc["tree"]["build_timestamp"]))
             d = diff(want_l, must("stdlib-read", tim.read_ini, text_l).get("general"))
             check(d is None, "general-of-loaded-tree", lambda: "tree loaded from a file written with main_variant=%r, dumped with main_variant=%r: %s" % (main, other, d))
+    # ... and the object itself after it was changed: [general] follows what the object holds NOW
+    desc2 = must("modify-existing-tree", tim.modify_ti, desc, obj, case.get("plan", 0))
+    for other in (None, desc2["main_variant"]):
+        text_c = must("dump-changed-tree", tim.dump_text, obj, other)
+        d = diff(tim.expected_general(desc2, other), must("stdlib-read", tim.read_ini, text_c).get("general"))
+        check(d is None, "general-of-changed-tree", lambda: "tree written, changed in place and written again with main_variant=%r: %s" % (other, d))
     labels = tim.labels(desc) + (["explicit-main"] if main is not None else []) + (["float-timestamp"] if isinstance(desc["tree"]["build_timestamp"], float) else [])
     mp = [n for n in desc["variants"] if n["uid"] == g["variant"]][0]["paths"]
     labels.append("main-paths:" + "".join(k[0] if k in mp else "-" for k in ("packages", "repository", "source_packages", "source_repository")))
